@@ -22,6 +22,7 @@ Monitors (each case = one grid system + one index map):
 VERIF_C16_SINGLE_ENV_DROPS=1 restricts dropped cells to one environment per map.
 """
 import json
+import numpy as np
 import math
 import os
 import sys
@@ -561,6 +562,15 @@ def run_case(case):
             times.append(times[-1] + r.uniform(0.01, 3))
         traj = st.RDTrajectory(st.UnitArray(vals, qu), st.UnitArray(times, tu), csys)
         out = cgm.uncoarsegrain_trajectory(traj, system, list(cmap))
+        # the coarse trajectory is the caller's: it is still what it was, and spreading it a second time gives the same
+        if [float(x) for x in traj.data.value] != [float(x) for x in vals] or [float(x) for x in traj.t.value] != [float(x) for x in times]:
+            bad.append({"what": "uncoarsegrain: the coarse-grained trajectory handed in was modified", "first_values_now": [float(x) for x in traj.data.value][:6],
+                        "first_values_given": vals[:6]})
+        else:
+            out2 = cgm.uncoarsegrain_trajectory(traj, system, list(cmap))
+            cnt["uncoarsegrain_repeated"] = cnt.get("uncoarsegrain_repeated", 0) + 1
+            if np.asarray(out2.data.value, dtype=float).tobytes() != np.asarray(out.data.value, dtype=float).tobytes():
+                bad.append({"what": "uncoarsegrain: spreading the same coarse trajectory a second time gives other values"})
         qs, ts = float(si.QUANTITY[qu]), float(si.TIME[tu])
         coarse = [[[vals[(k * S + s) * G + g] * qs for g in range(G)] for s in range(S)] for k in range(ns)]
         try:
